@@ -332,7 +332,7 @@ func writePacket(w *astikit.BitsWriter, p *Packet, targetPacketSize int) (writte
 		if p.AdaptationField.IsOneByteStuffing {
 			headerSize++
 		} else {
-			headerSize += 1 + int(calcPacketAdaptationFieldLength(p.AdaptationField))
+			headerSize += 1 + calcPacketAdaptationFieldSize(p.AdaptationField)
 		}
 	}
 	if targetPacketSize-headerSize < len(p.Payload) {
@@ -413,23 +413,29 @@ func writePCR(w *astikit.BitsWriter, cr *ClockReference) (int, error) {
 }
 
 func calcPacketAdaptationFieldLength(af *PacketAdaptationField) (length uint8) {
-	length++
+	return uint8(calcPacketAdaptationFieldSize(af))
+}
+
+// calcPacketAdaptationFieldSize is the number of bytes following the adaptation field length byte
+// It's not truncated to the 8 bits of that byte, so that a field that doesn't fit in a packet can be detected
+func calcPacketAdaptationFieldSize(af *PacketAdaptationField) (size int) {
+	size++
 	if af.HasPCR {
-		length += pcrBytesSize
+		size += pcrBytesSize
 	}
 	if af.HasOPCR {
-		length += pcrBytesSize
+		size += pcrBytesSize
 	}
 	if af.HasSplicingCountdown {
-		length++
+		size++
 	}
 	if af.HasTransportPrivateData {
-		length += 1 + uint8(len(af.TransportPrivateData))
+		size += 1 + len(af.TransportPrivateData)
 	}
 	if af.HasAdaptationExtensionField {
-		length += 1 + calcPacketAdaptationFieldExtensionLength(af.AdaptationExtensionField)
+		size += 1 + int(calcPacketAdaptationFieldExtensionLength(af.AdaptationExtensionField))
 	}
-	length += uint8(af.StuffingLength)
+	size += af.StuffingLength
 	return
 }
 
